@@ -82,6 +82,7 @@ fn lim_f64(l: &LimitVal) -> Option<(u8, f64)> {
         LimitVal::S(v) => Some((1, v.0 as f64)),
         LimitVal::D(v) => Some((2, v.0)),
         LimitVal::SI(_) => None,
+        LimitVal::SX { raw, scale, offset } => Some((2, *raw as f64 * scale.0 + offset.0)),
     }
 }
 
@@ -109,6 +110,17 @@ pub fn type_range(ty: &RType) -> (f64, f64) {
 
 pub fn range_spec(limits: Option<(Option<LimitVal>, Option<LimitVal>)>, ty: &RType) -> RangeSpec {
     if let Some((Some(a), Some(b))) = limits {
+        // a ScaledInteger element in the units of the attribute it limits (1 and 0 for an attribute that is no scaled
+        // integer) is a raw value of that attribute
+        let units = match ty {
+            RType::Scaled { scale, offset, .. } => (scale.0, offset.0),
+            _ => (1.0, 0.0),
+        };
+        let settle = |l: LimitVal| match l {
+            LimitVal::SX { raw, scale, offset } if (scale.0, offset.0) == units => LimitVal::SI(raw),
+            other => other,
+        };
+        let (a, b) = (settle(a), settle(b));
         // "the limits when both are given": each limit is a number of its own kind (integer, single, double); a
         // scaled-integer limit is a raw value of a scaled-integer attribute (as the writer's defaults are)
         let num = |l: &LimitVal| -> Option<f64> {
